@@ -13,16 +13,23 @@ prop("C07", "exploration",
      "request allowed => an unused grant of the session matches (shell grant for a shell request; command grant with identical text "
      "for a command request) with start <= now < expiry, and exactly that one grant disappears from the session; converse as a "
      "guard (matching valid grant => allowed; stored grant => admitted); at the end the server map is drained and compared with the "
-     "model. Non-trivial = history containing a request on an admitted session that must be refused (different text, repeat, "
+     "model. Second unit (enumerated completely, 1152 cases): a session admitted through one grant (every type, valid or expired) "
+     "sends an intent (every type; same / other user; own / other delegate key; expiry future / past; leaf / non-leaf certificate) "
+     "over its own AuthGrant tube - the target-side sequence checkIntent, AddAuthGrant of handleIntentCommunication with the real "
+     "functions; since no grant type authorizes issuing grants, any confirmation is a violation. Non-trivial = history containing a request on an admitted session that must be refused (different text, repeat, "
      "expired, not yet effective, other kind, nothing left) or a connect that must be refused because the grant names another "
      "user / another key / was consumed; distinct by hash of the whole history.",
      ["'connect' and the exec gate are the sequences of checkAuthorization / startCodex as read in hopserver/session.go, re-stated in "
       "the harness (verifAuthzLogin, verifAuthzExecAllowed); the real hopSession over a transport is layer 2",
-      "only exec requests have a gate function (checkCmd); port-forwarding and grant-issuing tubes are dispatched by "
-      "hopSession.start without consulting the grants and are therefore out of reach of layer 1 (DESIGN.md section 6 row 10)",
+      "exec requests are gated by checkCmd and intent communications by checkIntent (both driven here); port-forwarding tubes are "
+      "dispatched by hopSession.start straight into the portforwarding package, there is no gate function to call, so that action "
+      "kind is out of reach of layer 1 (DESIGN.md section 6 row 10)",
+      "no grant type authorizes issuing further grants, hence a grant-admitted session must never obtain a confirmation",
       "a shell grant is taken to cover every exec request that sets the shell flag, whatever command text it carries",
       "grants are stored with AddAuthGrant directly, as hoptests does; no authorized_keys files exist, so every admission is by grant"],
-     [dict(name="model", pkg="hopserver", run="^TestVerifC07Grants$", shards=dict(quick=8, thorough=16), thorough_scale=100)],
+     [dict(name="model", pkg="hopserver", run="^TestVerifC07Grants$", shards=dict(quick=8, thorough=16), thorough_scale=50),
+      dict(name="issue", pkg="hopserver", run="^TestVerifC07Issue$", shards=dict(quick=1, thorough=1))],
+     exhaustive_core=True,
      text="Model-based search: generated histories of grant storage, connects, exec requests and clock steps run on a real HopServer / "
           "hopSession (stubbed clock and passwd lookup) and on a multiset model written from the statement; every admission and every "
           "checkCmd decision is compared with 'a matching, effective, unexpired, unused grant for this user and key exists', and the "
